@@ -45,6 +45,8 @@ type behaviour struct {
 	Free    bool   `json:"free,omitempty"`
 	Closers int    `json:"closers,omitempty"`
 	Seed    int    `json:"seed,omitempty"`
+	Ms      int    `json:"ms,omitempty"`     // hammers: time box
+	Rounds  int    `json:"rounds,omitempty"` // hammers: cap on rounds
 	Op      string `json:"op,omitempty"`     // ops: the one operation to invoke on the closed component
 	Legacy  bool   `json:"legacy,omitempty"` // generated from the model of the code as it was before the repairs
 	Steps   []step `json:"steps,omitempty"`
@@ -264,6 +266,8 @@ func drive(env *fw.Env, b fw.Behaviour) *fw.Trace {
 		t = driveBridge(beh, seed)
 	case "child":
 		t = driveChild(beh, seed)
+	case "hammer":
+		t = driveHammer(beh, seed)
 	default:
 		return &fw.Trace{Status: fw.DriverError, Note: "unknown scene " + beh.Scene}
 	}
@@ -304,8 +308,9 @@ func suiteJob(name, suite string, emit bool) fw.TLCJob {
 }
 
 // thinning: drive one in N of the generated behaviours of a class. Class sizes of the "gen" suite:
-// latch 8145 (x 6 component kinds), tunnel 7144 repaired / 3520 as-it-was, Connecting 180 / 48,
-// bridge 4648 / 9827; "genbig": latch 28965 (x 6), tunnel 10304 / 12816, bridge 17187 / 39634.
+// latch 8145 (x 6 component kinds), tunnel 7144 repaired / 3520 as-it-was, Connecting 180 / 48, Starting 722,
+// bridge 26380 (14832 of them with the context-cancelled-while-flowing / > 1 MiB paths) / 9827;
+// "genbig": latch 28965 (x 6), tunnel 10304 / 12816, bridge 17187 / 39634.
 func thinning(tier, src, scene, start string, legacy bool) int {
 	quick := tier == "quick"
 	if src == "genbig" {
@@ -313,6 +318,9 @@ func thinning(tier, src, scene, start string, legacy bool) int {
 		case "latch":
 			return 60
 		case "tunnel":
+			if start == "Starting" {
+				return 40
+			}
 			return 25
 		}
 		return 30
@@ -328,6 +336,11 @@ func thinning(tier, src, scene, start string, legacy bool) int {
 			return 2
 		}
 		return 3
+	case scene == "tunnel" && start == "Starting":
+		if quick {
+			return 3
+		}
+		return 1
 	case scene == "tunnel":
 		if !quick {
 			return 3
@@ -337,11 +350,14 @@ func thinning(tier, src, scene, start string, legacy bool) int {
 		}
 		return 28
 	case !quick: // bridge
-		return 4
+		if legacy {
+			return 4
+		}
+		return 8
 	case legacy:
 		return 60
 	}
-	return 14
+	return 80
 }
 
 // generated is one line printed by Dispose.tla: the configuration and the behaviour prefix.
@@ -436,6 +452,24 @@ func main() {
 					out = append(out, fw.MustJSON(behaviour{Scene: "ops", Comp: c, Op: op}))
 				}
 			}
+			// hammers (time-boxed) and driver-made bridge cases
+			ms, rounds := map[string]int{"dispose": 450, "manager": 300, "stream": 400, "storage": 400, "session": 250, "mapping": 250}, 3000
+			tms, trounds := 700, 2500
+			if env.Tier == "thorough" {
+				for k := range ms {
+					ms[k] *= 8
+				}
+				rounds, tms, trounds = 30000, 8000, 40000
+			}
+			for _, c := range latchKinds {
+				out = append(out, fw.MustJSON(behaviour{Scene: "hammer", Comp: c, Closers: 4, Ms: ms[c], Rounds: rounds}))
+			}
+			out = append(out, fw.MustJSON(behaviour{Scene: "tunnel", Op: "startclose", Ms: tms, Rounds: trounds, Seed: 1}))
+			for i := 0; i < 3; i++ {
+				for _, op := range []string{"flow-ctx", "big-small", "big-large"} {
+					out = append(out, fw.MustJSON(behaviour{Scene: "bridge", Op: op, Seed: i}))
+				}
+			}
 			iters := 4000
 			if env.Tier == "thorough" {
 				iters = 40000
@@ -507,7 +541,7 @@ func selfTest(env *fw.Env, acc []*fw.Trace) []*fw.Trace {
 	next := 1 << 20
 	kinds := map[string]int{}
 	for _, t := range acc {
-		ranIdx, repIdx, qIdx, retIdx := -1, -1, -1, -1
+		ranIdx, repIdx, qIdx, retIdx, roundIdx := -1, -1, -1, -1, -1
 		for i, e := range t.Events {
 			switch e["ev"] {
 			case "Ran":
@@ -517,6 +551,10 @@ func selfTest(env *fw.Env, acc []*fw.Trace) []*fw.Trace {
 			case "Report":
 				if repIdx < 0 {
 					repIdx = i
+				}
+			case "Round":
+				if roundIdx < 0 {
+					roundIdx = i
 				}
 			case "Quiesce":
 				qIdx = i
@@ -568,6 +606,19 @@ func selfTest(env *fw.Env, acc []*fw.Trace) []*fw.Trace {
 			})
 			add("under", func(c *fw.Trace) {
 				c.Events = append(c.Events[:repIdx], c.Events[repIdx+1:]...)
+			})
+		}
+		if roundIdx >= 0 { // hammer: a handler ran twice in one round
+			add("round", func(c *fw.Trace) {
+				m := map[string]any{}
+				for k, v := range c.Events[roundIdx]["counts"].(map[string]any) {
+					m[k] = v
+				}
+				for k := range m {
+					m[k] = 2
+					break
+				}
+				c.Events[roundIdx]["counts"] = m
 			})
 		}
 		if qIdx >= 0 {
